@@ -208,7 +208,12 @@ def disptex(matrix, title,  nd = 3, pdims = True, h=""):
     for i in range(shape[0]):
         #strr+= "\\hline\n"
         for j in range(shape[1]):
-            strr+= str(round(matrix[i, j], nd))
+            cell = matrix[i, j]
+            if hasattr(cell, 'item'):
+                #numpy scalars round in their own type: numpy.bool cannot at all, and
+                #float16/float32 overflow or lose digits. Round the plain python value.
+                cell = cell.item()
+            strr+= str(round(cell, nd))
             if j != shape[1] - 1:
                 strr+=" & "
                 continue
